@@ -209,7 +209,8 @@ def _cls_init(repo, cls):
 def _query_case(repo, it, S, spec):
     """strict queries around bin boundaries return every gene they contain; relaxed queries return every gene whose span they
     overlap even when none of its transcripts shares a bin with the query"""
-    genes_lay, queries = spec
+    genes_lay, queries = spec[:2]
+    top = spec[2] if len(spec) > 2 else 1100000
     genes = [mk_gene(it, [mk_transcript(it, [b], S["PLUS"]) for b in lay], gene_id=f"g{i}") for i, lay in enumerate(genes_lay)]
     # every kind of member takes part in a range query: a feature collection and a variant collection next to the first gene
     a0, b0 = genes_lay[0][0]
@@ -218,7 +219,7 @@ def _query_case(repo, it, S, spec):
     mkv = lambda s_, e: it.apply(ClassTok("VariantInterval"), [s_, e, "T", "SNV"], {"variant_name": f"v{s_}"}, None, 0)  # noqa: E731
     vc = it.apply(ClassTok("VariantIntervalCollection"), [[mkv(a0 + 20, a0 + 21), mkv(a0 + 50, a0 + 52)]], {"variant_collection_id": "vc0"}, None, 0)
     others = {"fc0": (a0 + 10, a0 + 40), "vc0": (a0 + 20, a0 + 52)}
-    ac = mk_collection(it, genes=genes, feature_collections=[fc], variant_collections=[vc], start=0, end=1100000)  # explicit bounds: every query below lies inside them
+    ac = mk_collection(it, genes=genes, feature_collections=[fc], variant_collections=[vc], start=0, end=top)  # explicit bounds: every query below lies inside them
     f = repo.fn("gene.collections:AnnotationCollection.query_by_position")
     out = []
     n = 0
@@ -253,6 +254,10 @@ QUERY_SPECS = [
     # a gene whose two transcripts are far apart: a relaxed query between them overlaps the gene span only
     ([[(1000, 1100), (1000000, 1000100)], [(500000, 500050)]],
      [(400000, 600000), (500000, 500050), (1000, 1000100), (1050, 1000050), (200000, 200100)]),
+    # a chromosome longer than the binning scheme (2^29): members beyond the limit, windows that start below, at and beyond it
+    ([[(2 ** 29 + 1000, 2 ** 29 + 2000)], [(2 ** 29 - 500, 2 ** 29 + 300)], [(700000000, 700000400)], [(5000, 6000)]],
+     [(2 ** 29 + 500, 2 ** 29 + 3000), (2 ** 29, 2 ** 29 + 2000), (2 ** 29 - 1000, 2 ** 29 + 2500), (600000000, 800000000), (2 ** 29 + 1000, 2 ** 29 + 2000),
+      (1, 900000000), (4000, 2 ** 29 + 400)], 900000000),
 ]
 
 
